@@ -141,4 +141,28 @@ theorem truncate_spec (p : List K) (k : Nat) :
   TF.Proofs.PolyD.truncate_spec root p k
 example : (3 : Nat) - (5 + 1) = 0 := rfl
 
+/-- `structured_multiple_of_degree(n)` for every non-zero `p` (any storage, any factor `X^k`) and every `n ≥ deg p`:
+    it does not panic and returns a multiple of `p` of degree **exactly** `n`; for `deg p ≥ 1` the multiple is monic,
+    of the form `X^n + (degree < deg p)`, i.e. it is `X^n - (X^n mod p)`.  (For a constant `p = c` the Rust code
+    returns `c⁻¹·X^n`, which is a multiple of degree `n` but monic only for `c = 1`.) -/
+theorem structured_multiple_of_degree_spec (p : List K) (n : Nat) (hp : denote p ≠ 0)
+    (hn : (denote p).natDegree ≤ n) :
+    ∃ s, structuredMultipleOfDegree FK p n = some s ∧ denote p ∣ denote s ∧ (denote s).natDegree = n ∧
+      (1 ≤ (denote p).natDegree → (denote s).Monic ∧ denote s = X ^ n - X ^ n % denote p) := by
+  obtain ⟨s, h1, _, h2, h3, h4⟩ := structuredMultipleOfDegree_spec root p n hp hn
+  refine ⟨s, h1, h2, h3, fun hd => ⟨(h4 hd).1, ?_⟩⟩
+  obtain ⟨q, hq⟩ := h2
+  have hcert : (X ^ n : K[X]) = q * denote p + (X ^ n - denote s) := by rw [hq]; ring
+  have hdeg : (X ^ n - denote s : K[X]).degree < (denote p).degree := by
+    rw [← neg_sub, degree_neg]; exact (h4 hd).2
+  rw [← (div_mod_of_certificate hcert hdeg).2]; ring
+example : (denote ([1, 2, 3] : List ℚ)).natDegree ≤ 7 := by
+  refine le_trans (natDegree_denote_le _ 2 (by simp)) (by norm_num)
+
+/-- … and it panics for the zero polynomial and for `n < deg p` -/
+theorem structured_multiple_of_degree_panics (p : List K) (n : Nat)
+    (h : denote p = 0 ∨ n < (denote p).natDegree) : structuredMultipleOfDegree FK p n = none :=
+  structuredMultipleOfDegree_none root p n h
+example : denote ([0] : List ℚ) = 0 ∨ 3 < (denote ([0] : List ℚ)).natDegree := Or.inl (by simp)
+
 end TF.C09
